@@ -15,6 +15,10 @@ FAMILIES = {
     "dkgsync": ("grow_dkgsync", "dkg/sync: connection / step barrier protocol"),
     "vapi": ("grow_vapi", "core/validatorapi: DV-key attribution, partial-signature gate, per-duty forwarding, pubshare translation"),
     "nodesigs": ("grow_nodesigs", "dkg node signatures and lock-hash / deposit partial signature aggregation"),
+    "exchanger": ("grow_exchanger", "dkg/exchanger.go: partial-signature exchange of the ceremony (real parsigdb + parsigex, gater, share-index check)"),
+    "forkjoin": ("grow_forkjoin", "app/forkjoin: fan-out helper (workers, fail-fast, cancel, Flatten, goroutine accounting)"),
+    "lifecycle": ("grow_lifecycle", "app/lifecycle: start/stop hook ordering, shutdown budget, Run's error, late registration"),
+    "retry": ("grow_retry", "app/retry + core/retry.go: backoff, duty-deadline context, error classes, Shutdown accounting, wired edges"),
 }
 
 
